@@ -254,9 +254,30 @@ INTKEY = z3.Function('intkey', IntS, StrS)
 KEYINT = z3.Function('keyint', StrS, IntS)
 
 
+PAIRKEY = z3.Function('pairkey', StrS, StrS, StrS)
+KEYP1 = z3.Function('keyp1', StrS, StrS)
+KEYP2 = z3.Function('keyp2', StrS, StrS)
+
+
+def _pair_strings(k):
+    """(a, b) when k is visibly a 2-tuple of strings, else None"""
+    if _c(k) != 'TupleV':
+        return None
+    try:
+        from .vc import seq_elems
+        els = [simp(e) for e in seq_elems(simp(k.arg(0)))]
+    except Exception:
+        return None
+    if len(els) == 2 and all(_c(e) == 'StrV' for e in els):
+        return els[0].arg(0), els[1].arg(0)
+    return None
+
+
 def is_key(k):
     c = _c(k)
     if c in ('ObjV', 'IntV', 'BoolV', 'EnumV'):
+        return z3.BoolVal(True)
+    if _pair_strings(k) is not None:
         return z3.BoolVal(True)
     if c == 'FloatV':
         # a whole float hashes and compares like the int
@@ -279,6 +300,9 @@ def ks(k):
         return INTKEY(z3.If(k.arg(0), z3.IntVal(1), z3.IntVal(0)))
     if c == 'FloatV':
         return INTKEY(z3.ToInt(k.arg(0)))
+    pr = _pair_strings(k)
+    if pr is not None:
+        return PAIRKEY(pr[0], pr[1])
     return V.s(k)
 
 
@@ -289,9 +313,17 @@ INTKEY_INJ = z3.ForAll([_qi], z3.And(KEYINT(INTKEY(_qi)) == _qi, z3.PrefixOf(z3.
                        patterns=[INTKEY(_qi)])
 
 
+_qa, _qb = z3.String('k!pa'), z3.String('k!pb')
+PAIRKEY_INJ = z3.ForAll([_qa, _qb], z3.And(KEYP1(PAIRKEY(_qa, _qb)) == _qa, KEYP2(PAIRKEY(_qa, _qb)) == _qb,
+                                           z3.PrefixOf(z3.StringVal('\x02'), PAIRKEY(_qa, _qb))),
+                        patterns=[PAIRKEY(_qa, _qb)])
+
+
 def key_axiom(k):
     """the key encodings are injective (and disjoint from SECoP strings, which contain no control characters)"""
     c = _c(k)
+    if _pair_strings(k) is not None:
+        return PAIRKEY_INJ
     if c == 'ObjV':
         return OBJKEY_INJ
     if c in ('IntV', 'EnumV', 'BoolV', 'FloatV'):
